@@ -186,10 +186,19 @@ func (o *C03) AfterEnd(w *World) {
 type C02 struct {
 	BaseOracle
 	cast map[string]bool // chain/nonce/val -> a claim tx by that validator (or its orchestrator) succeeded
+	said map[string]string // chain/nonce/val -> the event that validator reported, field by field
+}
+
+// eventText: every field of a reported event (member order of signer sets is not a field).
+func eventText(ev mhub2types.ExternalEvent) string {
+	if ev == nil {
+		return "<undecodable>"
+	}
+	return fmt.Sprintf("%T %s", ev, canonEvent(ev).String())
 }
 
 func (*C02) Property() string { return "C02" }
-func (o *C02) Init(w *World)  { o.cast = map[string]bool{} }
+func (o *C02) Init(w *World)  { o.cast = map[string]bool{}; o.said = map[string]string{} }
 
 func (o *C02) BeforeTx(w *World, tx *PendingTx) {
 	if !isClaimTx(tx) {
@@ -224,6 +233,13 @@ func (o *C02) AfterTx(w *World, r *TxResult) {
 	for _, n := range parseNonces(r.Tx.Meta["nonces"]) {
 		o.cast[fmt.Sprintf("%s/%d/%s", chain, n, val)] = true
 	}
+	for _, m := range r.Tx.Msgs {
+		if sm, ok := m.(*mhub2types.MsgSubmitExternalEvent); ok {
+			if ev := DecodeEvent(sm.Event); ev != nil {
+				o.said[fmt.Sprintf("%s/%d/%s", sm.ChainId, ev.GetEventNonce(), val)] = eventText(ev)
+			}
+		}
+	}
 }
 
 func (o *C02) AfterEnd(w *World) {
@@ -252,6 +268,32 @@ func (o *C02) AfterEnd(w *World) {
 			if v := st.Validator(va); v != nil && v.Status == stakingtypes.Bonded {
 				sum = sum.Add(sdk.NewInt(st.LastValidatorPower(va)))
 			}
+		}
+		// ... each of them for THAT event: the power of the voters whose own report equals the applied event in every field
+		w.St.Check("C02:same-event")
+		applied := eventText(a.Event)
+		same := sdk.ZeroInt()
+		differing := ""
+		for _, vs := range a.Rec.Rec.Votes {
+			va, err := sdk.ValAddressFromBech32(vs)
+			if err != nil {
+				continue
+			}
+			rep, ok := o.said[fmt.Sprintf("%s/%d/%s", a.Chain, a.Nonce, vs)]
+			if !ok {
+				continue
+			}
+			if rep != applied {
+				differing = vs + " reported " + rep
+				continue
+			}
+			if v := st.Validator(va); v != nil && v.Status == stakingtypes.Bonded {
+				same = same.Add(sdk.NewInt(st.LastValidatorPower(va)))
+			}
+		}
+		if same.MulRaw(100).LT(total.MulRaw(66)) && !sum.MulRaw(100).LT(total.MulRaw(66)) {
+			w.Fail("C02", "quorum", "same-event", fmt.Sprintf("%s nonce %d applied %s; the voters who reported exactly that event hold %s of %s bonded power, the rest of the %s counted voted for something else (%s)", a.Chain, a.Nonce, applied, same, total, sum, differing))
+			return
 		}
 		// exact integers: 100 * sum >= 66 * total
 		if sum.MulRaw(100).LT(total.MulRaw(66)) {
